@@ -5,38 +5,52 @@ import Aiortc.Lemmas.SctpNoCrashCtl
 namespace Aiortc.Sctp.V2
 open Aiortc.Gen Aiortc.Sctp.Wire
 set_option linter.unusedSimpArgs false
-variable {U : List Nat}
+variable {U : List Nat} {B : Nat}
 
 /-- `WF` does not read the fields that changed. -/
 macro "wf_same2 " h:term : tactic =>
   `(tactic| exact ⟨($h).net, ($h).ch, ($h).tx, ($h).rx, ($h).rcReq, ($h).rcResp, ($h).sack, ($h).ids, ($h).cap, ($h).tm1, ($h).tm2, ($h).tasks, ($h).rcr⟩)
 
-theorem wp_setState_established {A} {Q : Unit → St → Prop} {e : Ep} {l : List Out} (h : WF U e)
-    (hq : ∀ e' l', WF U e' → e'.rwnd = e.rwnd → e'.inStreams = e.inStreams → Q () (e', l')) :
+/-- the same for `WFx` (the armed handlers did not change either) -/
+macro "wfx_same " h:term : tactic =>
+  `(tactic| exact WFx.map $h (fun _ hw => ⟨hw.net, hw.ch, hw.tx, hw.rx, hw.rcReq, hw.rcResp, hw.sack, hw.ids, hw.cap, hw.tm1, hw.tm2, hw.tasks, hw.rcr⟩) rfl)
+
+theorem WFx.pushTask {e : Ep} (h : WFx B e) {t : Task} (ht : TaskOk t) : WFx B { e with tasks := e.tasks ++ [t] } :=
+  h.map (fun _ hw => hw.pushTask ht) rfl
+
+theorem wp_setState_established {A} {Q : Unit → St → Prop} {e : Ep} {l : List Out} (h : WFx B e)
+    (hq : ∀ e' l', WFx B e' → e'.rwnd = e.rwnd → e'.inStreams = e.inStreams → Q () (e', l')) :
     wp A (setState .established) Q (e, l) := by
   unfold setState
   simp only [wp_bind, wp_modE, if_true, wp_getE]
-  have hw0 : WF U { e with assoc := .established, state := "connected" } := by wf_same2 h
-  refine wp_forIn A _ _ _ (fun suf s' => WF U s'.1 ∧ (∀ p ∈ suf, p.2 < s'.1.chans.length) ∧
-    s'.1.rwnd = e.rwnd ∧ s'.1.inStreams = e.inStreams) _ ⟨hw0, hw0.ch.dcIdx, rfl, rfl⟩ ?_ ?_
-  · intro ⟨sid, i⟩ rest ⟨e1, l1⟩ ⟨hw, hidx, hr, hi⟩
-    have hlt : i < e1.chans.length := hidx (sid, i) (by simp)
+  have hw0 : WFx B { e with assoc := .established, state := "connected" } := by wfx_same h
+  -- the loop runs over a snapshot of `_data_channels`; handlers do not touch the stream table
+  refine wp_forIn A _ _ _ (fun suf s' => WFx B s'.1 ∧ (∀ p ∈ suf, p ∈ s'.1.dataChannels) ∧
+    s'.1.rwnd = e.rwnd ∧ s'.1.inStreams = e.inStreams) _ ⟨hw0, fun p hp => hp, rfl, rfl⟩ ?_ ?_
+  · intro ⟨sid, i⟩ rest ⟨e1, l1⟩ ⟨hw, hin, hr, hi⟩
+    obtain ⟨U, hb, hwu⟩ := id hw
+    have hmem : (sid, i) ∈ e1.dataChannels := hin (sid, i) (by simp)
+    have hlt : i < e1.chans.length := hwu.ch.dcIdx _ hmem
     obtain ⟨c, hc⟩ := getElem?_of_lt hlt
+    obtain ⟨d, hd, hdid⟩ := hwu.ch.dcLink _ hmem
     simp only [wp_bind, wp_chanGet hc]
     split
     · simp only [wp_bind]
-      refine wp_setReady hw hlt ?_
-      intro cs l' hw' hlen
-      simp only [wp_pure, true_and]
-      exact ⟨hw', fun p hp => by simpa [hlen] using hidx p (by simp [hp]), hr, hi⟩
+      refine wp_setReady hw hlt ?_ ?_
+      · intro _ c' hc'
+        rw [hd] at hc'; cases hc'
+        exact Or.inr (by rw [hdid]; rfl)
+      · intro e' l' hw' hf
+        simp only [wp_pure, true_and]
+        exact ⟨hw', fun p hp => by rw [hf.dcs]; exact hin p (by simp [hp]), hf.rwnd.trans hr, hf.ins.trans hi⟩
     · simp only [wp_bind, wp_pure, true_and]
-      exact ⟨hw, fun p hp => hidx p (by simp [hp]), hr, hi⟩
+      exact ⟨hw, fun p hp => hin p (by simp [hp]), hr, hi⟩
   · intro ⟨e1, l1⟩ ⟨hw, _, hr, hi⟩
     simp only [wp_queueTask]
     exact hq _ _ (hw.pushTask trivial) hr hi
 
-theorem wp_setState_closed {A} {Q : Unit → St → Prop} {e : Ep} {l : List Out} (h : WF U e)
-    (hq : ∀ e' l', WF U e' → e'.rwnd = e.rwnd → e'.inStreams = e.inStreams → Q () (e', l')) :
+theorem wp_setState_closed {A} {Q : Unit → St → Prop} {e : Ep} {l : List Out} (h : WFx B e)
+    (hq : ∀ e' l', WFx B e' → e'.rwnd = e.rwnd → e'.inStreams = e.inStreams → Q () (e', l')) :
     wp A (setState .closed) Q (e, l) := by
   unfold setState
   simp only [wp_bind, wp_modE, reduceCtorEq, if_false, if_true]
@@ -45,45 +59,50 @@ theorem wp_setState_closed {A} {Q : Unit → St → Prop} {e : Ep} {l : List Out
   refine wp_t3Cancel ?_; intro l3
   refine wp_rcCancel ?_; intro l4
   simp only [wp_modE, wp_getE]
-  have htx : TxOk U { e.tx with t3 := false } :=
-    h.tx.congr rfl rfl rfl rfl rfl rfl rfl rfl
-  have hw0 : WF U { e with assoc := .closed, t1 := false, t1Chunk := ch1, t2 := false, t2Chunk := ch2,
-                           tx := { e.tx with t3 := false }, rcTimer := false, state := "closed",
-                           reconfigQueue := [], reconfigRequest := none } :=
-    ⟨h.net, ⟨h.ch.dcIdx, h.ch.dcKeys, h.ch.qIdx, h.ch.qPR, h.ch.qPpid, h.ch.sid, by simp⟩, htx, h.rx,
-     h.rcReq, h.rcResp, h.sack, h.ids, h.cap, (fun hf => by cases hf), (fun hf => by cases hf), h.tasks,
-     (fun p hp => by cases hp)⟩
-  refine wp_forIn A _ _ _ (fun suf s' => WF U s'.1 ∧ s'.1.dataChannels = suf ∧
+  have hw0 : WFx B { e with assoc := .closed, t1 := false, t1Chunk := ch1, t2 := false, t2Chunk := ch2,
+                            tx := { e.tx with t3 := false }, rcTimer := false, state := "closed",
+                            reconfigQueue := [], reconfigRequest := none } :=
+    h.map (fun U h => ⟨h.net, ⟨h.ch.dcIdx, h.ch.dcKeys, h.ch.qIdx, h.ch.qPR, h.ch.qPpid, h.ch.sid, by simp,
+        h.ch.dcLink, h.ch.openId⟩, h.tx.congr rfl rfl rfl rfl rfl rfl rfl rfl, h.rx,
+      h.rcReq, h.rcResp, h.sack, h.ids, h.cap, (fun hf => by cases hf), (fun hf => by cases hf), h.tasks,
+      (fun p hp => by cases hp)⟩) rfl
+  refine wp_forIn A _ _ _ (fun suf s' => WFx B s'.1 ∧ s'.1.dataChannels = suf ∧
     s'.1.rwnd = e.rwnd ∧ s'.1.inStreams = e.inStreams) _ ⟨hw0, rfl, rfl, rfl⟩ ?_ ?_
   · intro ⟨sid, i⟩ rest ⟨e1, l1⟩ ⟨hw, hdc, hr, hi⟩
     simp only at hdc
     simp only [wp_bind]
+    have hkeys : (e1.dataChannels.map (·.1)).Nodup := by
+      obtain ⟨U, _, hwu⟩ := hw; exact hwu.ch.dcKeys
     refine wp_dcClosed hw ?_
-    intro cs l' hw' hlen
+    intro e' l' hw' hf
     simp only [wp_pure, true_and]
-    refine ⟨hw', ?_, hr, hi⟩
+    refine ⟨hw', ?_, hf.rwnd.trans hr, hf.ins.trans hi⟩
+    rw [hf.dcs]
     show dictDel e1.dataChannels sid = rest
     rw [hdc]
-    exact dictDel_cons_nodup (hdc ▸ hw.ch.dcKeys)
+    exact dictDel_cons_nodup (hdc ▸ hkeys)
   · intro ⟨e1, l1⟩ ⟨hw, _, hr, hi⟩
     simp only [wp_getE, wp_bind]
-    refine wp_forIn A _ _ _ (fun suf s' => WF U s'.1 ∧ (∀ x ∈ suf, x.1 < s'.1.chans.length) ∧
-      s'.1.rwnd = e.rwnd ∧ s'.1.inStreams = e.inStreams) _ ⟨hw, hw.ch.qIdx, hr, hi⟩ ?_ ?_
+    have hq0 : ∀ x ∈ e1.dcQueue, x.1 < e1.chans.length := by
+      obtain ⟨U, _, hwu⟩ := hw; exact hwu.ch.qIdx
+    refine wp_forIn A _ _ _ (fun suf s' => WFx B s'.1 ∧ (∀ x ∈ suf, x.1 < s'.1.chans.length) ∧
+      s'.1.rwnd = e.rwnd ∧ s'.1.inStreams = e.inStreams) _ ⟨hw, hq0, hr, hi⟩ ?_ ?_
     · intro ⟨i, ppid, data⟩ rest ⟨e2, l2⟩ ⟨hw2, hidx, hr2, hi2⟩
       simp only [wp_bind]
-      refine wp_setReady hw2 (hidx (i, ppid, data) (by simp)) ?_
-      intro cs l' hw' hlen
+      refine wp_setReady hw2 (hidx (i, ppid, data) (by simp)) (by intro h3; cases h3) ?_
+      intro e' l' hw' hf
       simp only [wp_pure, true_and]
-      exact ⟨hw', fun x hx => by simpa [hlen] using hidx x (by simp [hx]), hr2, hi2⟩
+      exact ⟨hw', fun x hx => by rw [hf.len]; exact hidx x (by simp [hx]), hf.rwnd.trans hr2, hf.ins.trans hi2⟩
     · intro ⟨e2, l2⟩ ⟨hw2, _, hr2, hi2⟩
       simp only [wp_modE]
       refine hq _ _ ?_ hr2 hi2
-      exact ⟨hw2.net, hw2.ch.subQ (q' := []) (by simp), hw2.tx, hw2.rx, hw2.rcReq, hw2.rcResp, hw2.sack, hw2.ids, hw2.cap, hw2.tm1, hw2.tm2, hw2.tasks, hw2.rcr⟩
+      exact hw2.map (fun U hw2 => ⟨hw2.net, hw2.ch.subQ (q' := []) (by simp), hw2.tx, hw2.rx, hw2.rcReq, hw2.rcResp,
+        hw2.sack, hw2.ids, hw2.cap, hw2.tm1, hw2.tm2, hw2.tasks, hw2.rcr⟩) rfl
 
 theorem WF.pushRcq {e : Ep} (h : WF U e) {sid : Nat} (hs : sid < 65536) :
     WF U { e with reconfigQueue := e.reconfigQueue ++ [sid] } := by
-  refine ⟨h.net, ⟨h.ch.dcIdx, h.ch.dcKeys, h.ch.qIdx, h.ch.qPR, h.ch.qPpid, h.ch.sid, ?_⟩, h.tx, h.rx,
-    h.rcReq, h.rcResp, h.sack, h.ids, h.cap, h.tm1, h.tm2, h.tasks, h.rcr⟩
+  refine ⟨h.net, ⟨h.ch.dcIdx, h.ch.dcKeys, h.ch.qIdx, h.ch.qPR, h.ch.qPpid, h.ch.sid, ?_, h.ch.dcLink, h.ch.openId⟩,
+    h.tx, h.rx, h.rcReq, h.rcResp, h.sack, h.ids, h.cap, h.tm1, h.tm2, h.tasks, h.rcr⟩
   intro s hs'
   rcases List.mem_append.mp hs' with hs' | hs'
   · exact h.ch.rcq s hs'
@@ -91,54 +110,59 @@ theorem WF.pushRcq {e : Ep} (h : WF U e) {sid : Nat} (hs : sid < 65536) :
 
 /-- `_data_channel_close(channel)`. The `KeyError` of `self._data_channels.pop(channel.id)` cannot happen
 while the association is established (the stream reset is queued instead). -/
-theorem wp_dcClose {A} {i : Nat} {Q : Unit → St → Prop} {e : Ep} {l : List Out} (h : WF U e)
+theorem wp_dcClose {A} {i : Nat} {Q : Unit → St → Prop} {e : Ep} {l : List Out} (h : WFx B e)
     (hi : i < e.chans.length) (hk : A "KeyError" ∨ e.assoc = .established)
-    (hq : ∀ e' l', WF U e' → e'.rwnd = e.rwnd → e'.inStreams = e.inStreams → e'.assoc = e.assoc →
+    (hq : ∀ e' l', WFx B e' → e'.rwnd = e.rwnd → e'.inStreams = e.inStreams → e'.assoc = e.assoc →
       e'.rx = e.rx → e'.chans.length = e.chans.length → Q () (e', l')) :
     wp A (dcClose i) Q (e, l) := by
   obtain ⟨c, hc⟩ := getElem?_of_lt hi
+  have hsid : ∀ sid, c.id = some sid → sid < 65536 := by
+    obtain ⟨U, _, hw⟩ := h
+    exact fun sid hs => hw.ch.sid c (List.mem_of_getElem? hc) sid hs
   unfold dcClose
   simp only [wp_bind, wp_chanGet hc]
   split
   · simp only [wp_bind]
-    refine wp_setReady h hi ?_
-    intro cs l1 hw1 hlen
+    refine wp_setReady h hi (by intro h2; cases h2) ?_
+    intro e1 l1 hw1 hf1
+    have hi1 : i < e1.chans.length := by rw [hf1.len]; exact hi
     simp only [wp_getE]
     split
-    · rename_i sid hsid
+    · rename_i sid hsid'
       have hcid : c.id = some sid := by
-        split at hsid
-        · exact hsid
-        · cases hsid
-      have hslt := h.ch.sid c (List.mem_of_getElem? hc) sid hcid
+        split at hsid'
+        · exact hsid'
+        · cases hsid'
+      have hslt := hsid sid hcid
       simp only [wp_bind, wp_setE]
-      have hw2 := hw1.pushRcq hslt
+      have hw2 : WFx B { e1 with reconfigQueue := e1.reconfigQueue ++ [sid] } :=
+        hw1.map (fun _ hw => hw.pushRcq hslt) rfl
       split
       · simp only [wp_queueTask]
-        exact hq _ _ (hw2.pushTask trivial) rfl rfl rfl rfl hlen
+        exact hq _ _ (hw2.pushTask trivial) hf1.rwnd hf1.ins hf1.assoc hf1.rx hf1.len
       · simp only [wp_pure]
-        exact hq _ _ hw2 rfl rfl rfl rfl hlen
+        exact hq _ _ hw2 hf1.rwnd hf1.ins hf1.assoc hf1.rx hf1.len
     · rename_i hnone
       simp only [wp_bind, wp_setE]
-      have hw2 : WF U { e with chans := cs, dcQueue := e.dcQueue.filter fun q => q.1 != i } :=
-        ⟨hw1.net, hw1.ch.subQ (fun x hx => (List.mem_filter.mp hx).1), hw1.tx, hw1.rx, hw1.rcReq, hw1.rcResp,
-         hw1.sack, hw1.ids, hw1.cap, hw1.tm1, hw1.tm2, hw1.tasks, hw1.rcr⟩
+      have hw2 : WFx B { e1 with dcQueue := e1.dcQueue.filter fun q => q.1 != i } :=
+        hw1.map (fun _ hw => hw.subQ (fun x hx => (List.mem_filter.mp hx).1)) rfl
       split
-      · rename_i sid hsid
+      · rename_i sid hsid'
         have hnotest : e.assoc ≠ .established := by
-          intro hest; simp [hest, hsid] at hnone
+          intro hest; rw [hf1.assoc] at hnone; simp [hest, hsid'] at hnone
         have hA : A "KeyError" := hk.resolve_right hnotest
         split
         · simpa using hA
         · simp only [wp_bind, wp_modE]
-          have hw3 := hw2.delDc sid
-          refine wp_setReady hw3 (by simpa [hlen] using hi) ?_
-          intro cs' l2 hw4 hlen'
-          exact hq _ _ hw4 rfl rfl rfl rfl (by dsimp only at hlen' ⊢; omega)
+          refine wp_setReady (hw2.map (fun _ hw => hw.delDc sid) rfl) (by simpa using hi1) (by intro h3; cases h3) ?_
+          intro e4 l2 hw4 hf4
+          exact hq _ _ hw4 (hf4.rwnd.trans hf1.rwnd) (hf4.ins.trans hf1.ins) (hf4.assoc.trans hf1.assoc)
+            (hf4.rx.trans hf1.rx) (hf4.len.trans hf1.len)
       · try simp only [wp_bind, wp_pure]
-        refine wp_setReady hw2 (by simpa [hlen] using hi) ?_
-        intro cs' l2 hw4 hlen'
-        exact hq _ _ hw4 rfl rfl rfl rfl (by dsimp only at hlen' ⊢; omega)
+        refine wp_setReady hw2 (by simpa using hi1) (by intro h3; cases h3) ?_
+        intro e4 l2 hw4 hf4
+        exact hq _ _ hw4 (hf4.rwnd.trans hf1.rwnd) (hf4.ins.trans hf1.ins) (hf4.assoc.trans hf1.assoc)
+          (hf4.rx.trans hf1.rx) (hf4.len.trans hf1.len)
   · simp only [wp_pure]
     exact hq e l h rfl rfl rfl rfl rfl
 
@@ -153,10 +177,34 @@ theorem wp_sendReconfigResponse {A} {respSeq : Nat} {Q : Unit → St → Prop} {
   · simp [RcParam.bytes, u32be]
   · intro d; exact hq _
 
+theorem wpx_sendChunk {A} {c : Chunk} {Q : Unit → St → Prop} {e : Ep} {l : List Out} (h : WFx B e)
+    (hc : c.inRange = true) (hq : ∀ d, Q () (e, l ++ [.tx d])) : wp A (sendChunk c) Q (e, l) := by
+  obtain ⟨U, _, hw⟩ := h
+  exact wp_sendChunk hw hc hq
+
+theorem wpx_sendReconfigResponse {A} {respSeq : Nat} {Q : Unit → St → Prop} {e : Ep} {l : List Out} (h : WFx B e)
+    (hr : respSeq < 4294967296) (hq : ∀ l', Q () (e, l')) : wp A (sendReconfigResponse respSeq) Q (e, l) := by
+  obtain ⟨U, _, hw⟩ := h
+  exact wp_sendReconfigResponse hw hr hq
+
+theorem wpx_transmitReconfig {A} {Q : Unit → St → Prop} {e : Ep} {l : List Out} (h : WFx B e)
+    (hq : ∀ e' l', WFx B e' → DataFrame e e' → Q () (e', l')) : wp A transmitReconfig Q (e, l) := by
+  obtain ⟨U, hb, hw⟩ := h
+  refine wp_transmitReconfig hw ?_
+  intro e' l' hw' hf
+  have hre : e'.reactions = e.reactions := by
+    obtain ⟨_, _, _, _, _, _, _, _, rfl, _⟩ := hf; rfl
+  exact hq e' l' ⟨U, by rw [hre]; exact hb, hw'⟩ hf
+
+theorem wpx_transmit {A} {Q : Unit → St → Prop} {e : Ep} {l : List Out} (h : WFx B e)
+    (hq : ∀ tx l', WFx B { e with tx := tx } → Q () ({ e with tx := tx }, l')) : wp A transmit Q (e, l) := by
+  obtain ⟨U, hb, hw⟩ := h
+  exact wp_transmit hw (fun tx l' hw' => hq tx l' ⟨U, hb, hw'⟩)
+
 /-- `_receive_reconfig_param` (only called while the association is established). -/
-theorem wp_receiveReconfigParam {A} {p : RcParam} {Q : Unit → St → Prop} {e : Ep} {l : List Out} (h : WF U e)
+theorem wp_receiveReconfigParam {A} {p : RcParam} {Q : Unit → St → Prop} {e : Ep} {l : List Out} (h : WFx B e)
     (ha : Acc 0 e.rwnd e.inStreams) (hso : SidOk e.inStreams) (hp : p.Wired) (hest : e.assoc = .established)
-    (hq : ∀ e' l', WF U e' → Acc 0 e'.rwnd e'.inStreams → SidOk e'.inStreams → e'.assoc = .established →
+    (hq : ∀ e' l', WFx B e' → Acc 0 e'.rwnd e'.inStreams → SidOk e'.inStreams → e'.assoc = .established →
       Q () (e', l')) :
     wp A (receiveReconfigParam p) Q (e, l) := by
   cases p with
@@ -166,7 +214,7 @@ theorem wp_receiveReconfigParam {A} {p : RcParam} {Q : Unit → St → Prop} {e 
     simp only [wp_bind, wp_getE]
     split
     · simp only [wp_bind]
-      refine wp_sendReconfigResponse h hr1 ?_
+      refine wpx_sendReconfigResponse h hr1 ?_
       intro l'; simp only [wp_pure]; exact hq _ _ h ha hso hest
     · simp only [wp_bind, wp_pure, wp_getE]
       split
@@ -174,14 +222,16 @@ theorem wp_receiveReconfigParam {A} {p : RcParam} {Q : Unit → St → Prop} {e 
       · split
         · simp only [wp_pure]; exact hq _ _ h ha hso hest
         · simp only [wp_bind, wp_pure]
-          refine wp_forIn A streams _ _ (fun _ s' => WF U s'.1 ∧ Acc 0 s'.1.rwnd s'.1.inStreams ∧
+          refine wp_forIn A streams _ _ (fun _ s' => WFx B s'.1 ∧ Acc 0 s'.1.rwnd s'.1.inStreams ∧
             SidOk s'.1.inStreams ∧ s'.1.assoc = .established) _ ⟨h, ha, hso, hest⟩ ?_ ?_
           · intro sid rest ⟨e1, l1⟩ ⟨hw, hacc, hsok, hest1⟩
             simp only [wp_bind, wp_modE, wp_getE]
-            have hw1 : WF U { e1 with inStreams := dictDel e1.inStreams sid } := by wf_same2 hw
+            have hw1 : WFx B { e1 with inStreams := dictDel e1.inStreams sid } := hw.setIns _
             split
             · rename_i i hsome
-              have hi := hw.ch.dcIdx _ (dictGet_mem hsome)
+              have hi : i < e1.chans.length := by
+                obtain ⟨U, _, hwu⟩ := hw
+                exact hwu.ch.dcIdx _ (dictGet_mem hsome)
               simp only [wp_bind]
               refine wp_dcClose hw1 hi (Or.inr hest1) ?_
               intro e2 l2 hw2 hr2 hi2 has2 _ _
@@ -193,17 +243,19 @@ theorem wp_receiveReconfigParam {A} {p : RcParam} {Q : Unit → St → Prop} {e 
               exact ⟨hw1, hacc.del sid, hsok.del sid, hest1⟩
           · intro ⟨e1, l1⟩ ⟨hw, hacc, hsok, hest1⟩
             simp only [wp_modE, wp_bind]
-            have hw1 : WF U { e1 with reconfigResponseSeq := reqSeq } :=
-              ⟨hw.net, hw.ch, hw.tx, hw.rx, hw.rcReq, inRange32_ofNat hr1, hw.sack, hw.ids, hw.cap, hw.tm1, hw.tm2, hw.tasks, hw.rcr⟩
-            refine wp_sendReconfigResponse hw1 hr1 ?_
+            have hw1 : WFx B { e1 with reconfigResponseSeq := reqSeq } :=
+              hw.map (fun _ hw => ⟨hw.net, hw.ch, hw.tx, hw.rx, hw.rcReq, inRange32_ofNat hr1, hw.sack, hw.ids, hw.cap,
+                hw.tm1, hw.tm2, hw.tasks, hw.rcr⟩) rfl
+            refine wpx_sendReconfigResponse hw1 hr1 ?_
             intro l'; exact hq _ _ hw1 hacc hsok hest1
   | addOut reqSeq cnt =>
     have hr1 : reqSeq < 4294967296 := hp
     unfold receiveReconfigParam
     simp only [wp_bind, wp_modE]
-    have hw1 : WF U { e with inboundCount := e.inboundCount + cnt, reconfigResponseSeq := reqSeq } :=
-      ⟨h.net, h.ch, h.tx, h.rx, h.rcReq, inRange32_ofNat hr1, h.sack, h.ids, h.cap, h.tm1, h.tm2, h.tasks, h.rcr⟩
-    refine wp_sendReconfigResponse hw1 hr1 ?_
+    have hw1 : WFx B { e with inboundCount := e.inboundCount + cnt, reconfigResponseSeq := reqSeq } :=
+      h.map (fun _ h => ⟨h.net, h.ch, h.tx, h.rx, h.rcReq, inRange32_ofNat hr1, h.sack, h.ids, h.cap, h.tm1, h.tm2,
+        h.tasks, h.rcr⟩) rfl
+    refine wpx_sendReconfigResponse hw1 hr1 ?_
     intro l'; exact hq _ _ hw1 ha hso hest
   | resetResp respSeq result =>
     unfold receiveReconfigParam
@@ -212,22 +264,23 @@ theorem wp_receiveReconfigParam {A} {p : RcParam} {Q : Unit → St → Prop} {e 
     · rename_i reqSeq x1 x2 streams hreq
       split
       · simp only [wp_bind]
-        refine wp_forIn A streams _ _ (fun _ s' => WF U s'.1 ∧ s'.1.rwnd = e.rwnd ∧ s'.1.inStreams = e.inStreams ∧
+        refine wp_forIn A streams _ _ (fun _ s' => WFx B s'.1 ∧ s'.1.rwnd = e.rwnd ∧ s'.1.inStreams = e.inStreams ∧
           s'.1.assoc = .established) _ ⟨h, rfl, rfl, hest⟩ ?_ ?_
         · intro sid rest ⟨e1, l1⟩ ⟨hw, hr1, hi1, hest1⟩
           simp only [wp_bind, wp_modE]
-          have htx : TxOk U { e1.tx with streamSeq := dictDel e1.tx.streamSeq sid } :=
-            ⟨hw.tx.sent, hw.tx.out, hw.tx.chain, hw.tx.lastE, hw.tx.fs, hw.tx.fwd, hw.tx.adv,
-             fun p hp => hw.tx.seq p (List.mem_filter.mp hp).1, hw.tx.tsn⟩
-          refine wp_dcClosed (hw.setTx htx) ?_
-          intro cs l' hw' hlen
+          have hw1 : WFx B { e1 with tx := { e1.tx with streamSeq := dictDel e1.tx.streamSeq sid } } :=
+            hw.map (fun _ hw => hw.setTx ⟨hw.tx.sent, hw.tx.out, hw.tx.chain, hw.tx.lastE, hw.tx.fs, hw.tx.fwd,
+              hw.tx.adv, fun p hp => hw.tx.seq p (List.mem_filter.mp hp).1, hw.tx.tsn⟩) rfl
+          refine wp_dcClosed hw1 ?_
+          intro e' l' hw' hf
           simp only [wp_pure, true_and]
-          exact ⟨hw', hr1, hi1, hest1⟩
+          exact ⟨hw', hf.rwnd.trans hr1, hf.ins.trans hi1, hf.assoc.trans hest1⟩
         · intro ⟨e1, l1⟩ ⟨hw, hr1, hi1, hest1⟩
           simp only [wp_modE, wp_bind]
           refine wp_rcCancel ?_
           intro l2
-          refine wp_transmitReconfig (by wf_same2 hw.clearRcr) ?_
+          refine wpx_transmitReconfig (e := { e1 with reconfigRequest := none, rcTimer := false })
+            (hw.map (fun _ hw => by wf_same2 hw.clearRcr) rfl) ?_
           intro e3 l3 hw3 hf3
           have hr3 := hf3.rwnd
           have hi3 := hf3.ins
